@@ -27,9 +27,21 @@ PRESENTATIONS = ("list", "array", "dict_str", "names_str", "names_int", "dict_in
 OBJ5 = ("maxmin", "minmax", "diff", "ksmall", "klarge")
 
 
+_T0 = (time.process_time(), time.time())
+WALL_STRETCH = 2.5
+
+
+def now():
+    """
+    Shard clock: CPU seconds of this worker, so that a loaded machine costs wall-clock time instead of coverage; bounded below by wall-clock/2.5 so that a
+    shard that is starved (or waits on something) still ends within 2.5 x its budget.
+    """
+    return max(time.process_time() - _T0[0], (time.time() - _T0[1]) / WALL_STRETCH)
+
+
 def budget(spec):
-    """Deadline (time.time()) after which a shard stops drawing new cases."""
-    return time.time() + float(spec.get("budget_s", 60))
+    """Deadline on the shard clock now() after which a shard stops drawing new cases."""
+    return now() + float(spec.get("budget_s", 60))
 
 
 # ------------------------------------------------------------------ partition cases
